@@ -437,6 +437,12 @@ func runC07(c *Ctx) error {
 			s = &PkgSpec{Raw: []wire.Content{{Src: bigPath, Dst: "/usr/share/big/payload.txt"}, {Src: filepath.Join(tree.Root, "bin/tool"), Dst: "/usr/bin/tool"}},
 				Umask: 0o022, Describe: map[string]any{"payload": "one compressible file larger than every compressor block"}}
 		}
+		if i == 11 {
+			// one glob whose matches share a base name, sent into a directory: both would land on one path. Planning
+			// refuses that – and if it ever does not, which of the two gets packaged must not be a matter of chance
+			s = &PkgSpec{Raw: []wire.Content{{Src: filepath.Join(tree.Root, "same/*/app.conf"), Dst: "/etc/demo/", Type: "config"}, {Src: filepath.Join(tree.Root, "bin/tool"), Dst: "/usr/bin/tool"}},
+				Umask: 0o022, Describe: map[string]any{"payload": "a glob with two matches of one base name into a directory"}}
+		}
 		s.MTime = c07MTime
 		if r.Bool() {
 			withScripts(s)
